@@ -58,6 +58,12 @@ CHECKS = {
         ref="DESIGN.md section 6 C10",
         note="Invalidity is decided by gqlparser (trusted). Error payload alphabets are small.",
         technique="TLA+ contract evaluated by TLC on recorded runs (trace validation) + negative controls"),
+    "C13": dict(
+        category="model_checking",
+        text="Determinism.tla: an observation of one execution is (data, set of error messages, per service the bag of sub-requests); for one gateway and one (operation, fault plan) every execution must yield the first observation again. Each generated operation is executed 6 (quick) / 25 (thorough) times on the same gateway - plain and caching planner - while Go randomises map iteration and the fake transport perturbs the completion order of the concurrent calls with seeded delays; a third of the operations run under a fixed injected fault tied to one sub-request by identity. TLC validates the recorded observations (17k quick / 830k thorough executions).",
+        ref="DESIGN.md section 6 C13",
+        note="Nondeterminism is sampled over k executions, not enumerated: schedules inside the Go runtime are not controlled. Services answer the same way by construction (faults are tied to request identity, not batch position).",
+        technique="TLA+ contract (first observation = every observation) evaluated by TLC on recorded repeated executions (trace validation)"),
 }
 
 PENDING = "not claimed yet: specification and binding for this property are still being built (DESIGN.md section 10 build order)"
